@@ -266,86 +266,145 @@ def _is_param_attr(v, param: str, attr: str) -> bool:
     return v == ("attr", ("param", param), attr)
 
 
+def _iter_index(v, param: str, attr: str):
+    """index i if v is the element of the i-th iteration over <param>.<attr>, else None."""
+    if isinstance(v, tuple) and len(v) == 4 and v[0] == "iter" and _is_param_attr(v[1], param, attr):
+        return v[3]
+    return None
+
+
+def _loop_counts(p: PPath) -> List[int]:
+    return [c for (t, c) in p.decisions if t.startswith("loop@")]
+
+
 def rule_nested_contains(ctx: Ctx, rule: str = "nested-exists") -> None:
-    """C17: NestedTermList.contains_behavior is an existential over the alternatives."""
+    """C17: NestedTermList.contains_behavior is an existential over the alternatives (assumption-driven: every truth
+    assignment to 'alternative i contains the behaviour', 0..2 alternatives)."""
+    from itertools import product
+
     prog = ctx.prog
     fi = prog.func("NestedTermList.contains_behavior")
-    ps = Sim(prog, fi, loop_iters=(0, 1, 2), raises=lambda c, v: ["ValueError"] if c == ".contains_behavior" else []).paths()
+    me, beh = fi.params[0], fi.params[1]
     n = 0
-    for p in ps:
-        n += 1
-        answers = []
-        raised = False
-        for e in p.events:
-            if e["kind"] == "call" and e["callee"] == ".contains_behavior":
-                if e.get("raised"):
-                    raised = True
-            if e["kind"] == "branch" and isinstance(e["test"], tuple) and e["test"][0] == "mcall" and e["test"][1] == "contains_behavior":
-                answers.append(e["taken"])
-        if raised:
-            construct = "nested contains_behavior: an unassigned variable surfaces as ValueError"
-            okc = p.terminal == "raise" and p.exc_cls == "ValueError"
-        else:
+    for answers in product([False, True], repeat=2):
+
+        def extra(v, answers=answers):
+            if isinstance(v, tuple) and v[0] == "mcall" and v[1] == "contains_behavior":
+                i = _iter_index(v[2], me, "nested_termlist")
+                if i is not None and i < 2 and list(v[3]) + [x for _k, x in v[4]] == [("param", beh)]:
+                    return const(answers[i])
+            return None
+
+        ps = Sim(prog, fi, loop_iters=(0, 1, 2), assume=extra).paths()
+        for p in ps:
+            cnt = _loop_counts(p)
+            k = cnt[0] if cnt else 0
+            want = any(answers[:k])
+            n += 1
             construct = "nested contains_behavior: True iff some alternative contains the behaviour"
-            want = any(answers)
-            okc = p.terminal == "return" and p.value == const(want)
-            # the loop must range over the alternatives and pass the behaviour on
-            for e in p.calls("contains_behavior"):
-                if not (e["recv"][0] == "iter" and _is_param_attr(e["recv"][1], fi.params[0], "nested_termlist") and e["args"] == (("param", fi.params[1]),)):
-                    okc = False
-        if okc:
-            ctx.ok(rule, fi.key, construct + " @ " + p.label()[:50])
-        else:
-            ctx.violation(rule, fi.key, construct, "alternatives answered %s -> %s %s (path %s)" % (answers, p.terminal, show(p.value, 2) if p.terminal == "return" else p.exc_cls, p.label()), where=fi.where)
-    ctx.floor("nested contains_behavior paths", n, 5)
+            if p.terminal == "return" and p.value == const(want):
+                ctx.ok(rule, fi.key, construct + " @ %d alternatives %s" % (k, list(answers[:k])), nontrivial=k > 0)
+            else:
+                got = show(p.value, 2) if p.terminal == "return" else "raise " + str(p.exc_cls)
+                ctx.violation(rule, fi.key, construct, "with %d alternative(s) answering %s the result is %s (path %s)" % (k, list(answers[:k]), got, p.label()[:80]), where=fi.where)
+    # an unassigned variable (ValueError of an alternative) surfaces as ValueError
+    ps = Sim(prog, fi, loop_iters=(1,), raises=lambda c, v: ["ValueError"] if c == ".contains_behavior" else []).paths()
+    outs = {(p.terminal, p.exc_cls) for p in ps if any(e.get("raised") for e in p.events if e["kind"] == "call")}
+    construct = "nested contains_behavior: an unassigned variable surfaces as ValueError"
+    if outs == {("raise", "ValueError")}:
+        ctx.ok(rule, fi.key, construct)
+    else:
+        ctx.violation(rule, fi.key, construct, "outcomes %s" % sorted(map(str, outs)), where=fi.where)
+    ctx.floor("nested contains_behavior evaluations", n, 12)
 
 
 def rule_nested_le(ctx: Ctx, rule: str = "nested-forall-exists") -> None:
-    """C17: NestedTermList.__le__ answers True iff every left alternative is <= some right alternative."""
+    """C17: NestedTermList.__le__ answers True iff every left alternative is <= some right alternative (assumption-
+    driven: every truth assignment to 'left i <= right j' for i, j < 2 and every number 0..2 of alternatives)."""
+    from itertools import product
+
     prog = ctx.prog
     fi = prog.func("NestedTermList.__le__")
     me, ot = fi.params[0], fi.params[1]
-    ps = Sim(prog, fi, loop_iters=(0, 1, 2), assume=lambda v: const(True) if isinstance(v, tuple) and v[0] == "call" and v[1] == "isinstance" else None).paths()
     n = 0
-    for p in ps:
-        if p.terminal != "return":
-            continue
-        n += 1
-        # reconstruct: per outer iteration, was some comparison answered True?
-        outer: List[bool] = []
-        okshape = True
-        for e in p.events:
-            if e["kind"] == "loop-iter" and _is_param_attr(e.get("it"), me, "nested_termlist"):
-                outer.append(False)
-            if e["kind"] == "branch" and isinstance(e["test"], tuple) and e["test"][0] == "cmp":
-                t = e["test"]
-                l, r = t[2], t[3]
-                if t[1] == "LtE" and l[0] == "iter" and r[0] == "iter" and _is_param_attr(l[1], me, "nested_termlist") and _is_param_attr(r[1], ot, "nested_termlist"):
-                    if outer and e["taken"]:
-                        outer[-1] = True
-                elif t[1] == "GtE" and l[0] == "iter" and r[0] == "iter" and _is_param_attr(l[1], ot, "nested_termlist") and _is_param_attr(r[1], me, "nested_termlist"):
-                    if outer and e["taken"]:
-                        outer[-1] = True
+    bad_shape = set()
+    for bits in product([False, True], repeat=4):
+        T = [[bits[0], bits[1]], [bits[2], bits[3]]]
+
+        def extra(v, T=T):
+            if isinstance(v, tuple) and v[0] == "call" and v[1] == "isinstance":
+                return const(True)
+            if isinstance(v, tuple) and v[0] == "cmp" and v[1] in ("LtE", "GtE"):
+                l, r = (v[2], v[3]) if v[1] == "LtE" else (v[3], v[2])
+                i, j = _iter_index(l, me, "nested_termlist"), _iter_index(r, ot, "nested_termlist")
+                if i is not None and j is not None and i < 2 and j < 2:
+                    return const(T[i][j])
+                if _iter_index(l, ot, "nested_termlist") is not None or _iter_index(r, me, "nested_termlist") is not None:
+                    bad_shape.add(show(v, 3))
+            if isinstance(v, tuple) and v[0] == "mcall" and v[1] == "refines":
+                i, j = _iter_index(v[2], me, "nested_termlist"), _iter_index(v[3][0] if v[3] else None, ot, "nested_termlist")
+                if i is not None and j is not None and i < 2 and j < 2:
+                    return const(T[i][j])
+            return None
+
+        ps = Sim(prog, fi, loop_iters=(0, 1, 2), assume=extra, max_paths=20000).paths()
+        seen = set()
+        for p in ps:
+            if p.terminal != "return":
+                continue
+            # number of left alternatives = iterations of the loop over self; right alternatives: at most what was visited
+            outer = [e for e in p.events if e["kind"] == "loop-iter" and _is_param_attr(e.get("it"), me, "nested_termlist")]
+            inner_per_outer: List[int] = []
+            for e in p.events:
+                if e["kind"] == "loop-iter" and _is_param_attr(e.get("it"), me, "nested_termlist"):
+                    inner_per_outer.append(0)
+                elif e["kind"] == "loop-iter" and _is_param_attr(e.get("it"), ot, "nested_termlist") and inner_per_outer:
+                    inner_per_outer[-1] = max(inner_per_outer[-1], e["index"] + 1)
+            # the right-hand list has one fixed length m in a real run: keep only paths whose inner counts are consistent
+            decided = [c for (t, c) in p.decisions if t.startswith("loop@")]
+            key_ = (tuple(decided), p.value)
+            if key_ in seen:
+                continue
+            seen.add(key_)
+            n_left = len(outer)
+            ms = set()
+            # inner loop decisions: all decisions except the first (outer) one
+            inner_decisions = decided[1:] if decided else []
+            if len(set(inner_decisions)) > 1:
+                continue  # inconsistent: the right list cannot have two different lengths
+            m = inner_decisions[0] if inner_decisions else None
+            if not decided:
+                continue
+            n_outer_decided = decided[0]
+            if m is None:
+                if n_outer_decided != 0:
+                    # left alternatives exist but the right list was never looked at: treated by the early-exit rule below
+                    m = 0
                 else:
-                    okshape = False
-        construct = "nested <=: True iff every left alternative refines some right alternative"
-        want = all(outer)
-        entered = any(t.startswith("loop@") for (t, _c) in p.decisions)
-        if not entered:
-            # returned before looking at any alternative: only 'the left side has no alternative' justifies True
-            left_empty = any(e["kind"] == "branch" and mentions(e["test"], lambda x: x == ("attr", ("param", me), "nested_termlist")) and not mentions(e["test"], lambda x: x == ("attr", ("param", ot), "nested_termlist")) for e in p.events)
-            if p.value == const(True) and left_empty:
-                ctx.ok(rule, fi.key, construct + " (empty left side) @ " + p.label()[:40])
+                    m = 0
+            want = all(any(T[i][j] for j in range(m)) for i in range(n_outer_decided))
+            # a path that stopped early (return False on the first unmatched left alternative) visits fewer left
+            # alternatives than decided; its answer must still be the specification's answer
+            n += 1
+            construct = "nested <=: True iff every left alternative refines some right alternative"
+            if p.value == const(want):
+                ctx.ok(rule, fi.key, construct + " @ left=%d right=%d %s" % (n_outer_decided, m, bits), nontrivial=n_outer_decided > 0 and m > 0)
             else:
-                ctx.violation(rule, fi.key, construct, "answers %s without comparing any alternative (path %s): an empty right side contains nothing" % (show(p.value), p.label()), where=fi.where)
+                ctx.violation(rule, fi.key, construct, "with %d left / %d right alternatives and answers left_i<=right_j = %s the result is %s (path %s)" % (n_outer_decided, m, T, show(p.value), p.label()[:100]), where=fi.where)
+    if bad_shape:
+        ctx.violation(rule, fi.key, "nested <=: alternatives are compared left <= right", "compares %s" % sorted(bad_shape)[:2], where=fi.where)
+    # early exits before any alternative is looked at
+    ps = Sim(prog, fi, loop_iters=(0, 1, 2), assume=lambda v: const(True) if isinstance(v, tuple) and v[0] == "call" and v[1] == "isinstance" else None).paths()
+    for p in ps:
+        if p.terminal != "return" or any(t.startswith("loop@") for (t, _c) in p.decisions):
             continue
-        if not okshape:
-            ctx.violation(rule, fi.key, construct, "alternatives are compared as %s" % [show(e["test"], 3) for e in p.events if e["kind"] == "branch"][:2], where=fi.where)
-        elif p.value == const(want):
-            ctx.ok(rule, fi.key, construct + " @ " + p.label()[:60])
+        construct = "nested <=: no answer is given before the alternatives are looked at, unless the left side is empty"
+        left_empty = any(e["kind"] == "branch" and mentions(e["test"], lambda x: x == ("attr", ("param", me), "nested_termlist")) and not mentions(e["test"], lambda x: x == ("attr", ("param", ot), "nested_termlist")) for e in p.events)
+        if p.value == const(True) and left_empty:
+            ctx.ok(rule, fi.key, construct)
         else:
-            ctx.violation(rule, fi.key, construct, "per-left-alternative matches %s but the answer is %s (path %s)" % (outer, show(p.value), p.label()), where=fi.where)
-    ctx.floor("nested <= paths", n, 8)
+            ctx.violation(rule, fi.key, construct, "answers %s without comparing any alternative (path %s): an empty right side contains nothing" % (show(p.value), p.label()), where=fi.where)
+    ctx.floor("nested <= evaluations", n, 40)
 
 
 def rule_nested_intersect(ctx: Ctx, rule: str = "nested-intersect") -> None:
